@@ -370,7 +370,7 @@ def main() -> int:
             if quick or shard == 0:
                 zip_cache_enumeration(chk, sc, 5 if quick else 1)
             hl = [("umn", None), ("plain", driver.HANDLERS_PLAINDIR)][shard % 2]
-            writer_crash(chk, sc, 7 if quick else 1, hl[1], hl[0], n_entries=6 + (shard if not quick else 0))
+            writer_crash(chk, sc, 19 if quick else 1, hl[1], hl[0], n_entries=6 + (shard if not quick else 0))
             reader_writer_race(chk, sc, rounds=8 if quick else 20, per_round=150)
     return chk.finish(
         rule="case = (cache file, cut position): the file the server wrote is replaced by its prefix of length k "
